@@ -106,6 +106,10 @@ func obsMap(o *c07Obs, m z.ZogIssueMap) {
 	for _, k := range []string{"$first", "$root", "a", "b", "[0]", "[1]", "stale", "old"} {
 		l, ok := m[k]
 		o.add(k, ok)
+		if k == "$first" { // which issue is first may depend on the visit order (C09)
+			o.add(len(l))
+			continue
+		}
 		obsList(o, l)
 	}
 }
@@ -202,10 +206,9 @@ func dirtyPools() {
 		p.SchemaCtxPool.Put(sc)
 
 		iss := mkIssue()
+		// representation invariant: an object is in a pool at most once (no library path frees an
+		// object twice; the CollectMap double free of $first is covered by hist/collect-map)
 		p.ZogIssuePool.Put(iss)
-		if issuesDirty && i == 0 { // CollectMap frees the $first issue twice
-			p.ZogIssuePool.Put(iss)
-		}
 		p.InternalIssueListPool.Put(&p.ErrsList{List: z.ZogIssueList{mkIssue()}})
 		p.InternalIssueMapPool.Put(&p.ErrsMap{M: z.ZogIssueMap{"$first": {mkIssue()}, "old": {mkIssue()}}})
 		pb := p.PathBuilder{"", "stale", "old"} // representation invariant: element 0 is ""
@@ -264,6 +267,7 @@ func C07_Run(job string) {
 		probe = c
 	}
 	p.ClearPools()
+	v.MapOrderChoice(false) // the visit order is C09's subject
 	if a == "step" {
 		v.PoolChoice(true)
 		dirtyPools()
@@ -281,5 +285,13 @@ func C07_Run(job string) {
 		v.Cover("probe-issue")
 	}
 	v.Cover("recycled-object-used")
+	if v.Native() {
+		for i := range dirty.items {
+			if i < len(clean.items) && !eqAny(dirty.items[i], clean.items[i]) {
+				v.Obs(v.Sprint("first difference at item ", i, ": dirty=", dirty.items[i], " clean=", clean.items[i], " context=", dirty.items[max(0, i-8):i]))
+				break
+			}
+		}
+	}
 	v.Assert(dirty.equal(clean), "C07:result-depends-on-earlier-executions")
 }
